@@ -219,6 +219,8 @@ type bigHash struct {
 	ends      []int    // cumulative end offset (within pairBytes) of each pair
 	file      *gen.File
 	keyIndex  int
+	fields    [][]byte
+	valSpans  [][2]int // value content spans within pairBytes
 }
 
 // drawBigHashFile builds a file: [some keys] bigkey [some keys], where the big hash crosses the chunk limit.
@@ -277,6 +279,8 @@ func drawBigHashFile(t *rapid.T) *bigHash {
 		b = append(b, fb...)
 		b = append(b, 0x80)
 		b = binary.BigEndian.AppendUint32(b, uint32(vlen))
+		bh.fields = append(bh.fields, field)
+		bh.valSpans = append(bh.valSpans, [2]int{len(b), len(b) + vlen})
 		b = append(b, patBytes(uint32(i), vlen)...)
 		bh.ends = append(bh.ends, len(b))
 	}
